@@ -118,6 +118,7 @@ class Result:
         self.wall = 0.0
         self.solver_s = 0.0
         self.vccs = (0, 0)
+        self.witness_props = []   # (property name, description) of witnesses reported violated
         self.steps = 0        # CBMC: size of program expression (SSA steps of the unwound program)
         self.unwound = 0      # loop iterations / recursion levels unwound by symbolic execution
         self.sat_vars = 0
@@ -278,11 +279,16 @@ def run_job(job, ctx):
             if st == 'FAILURE':
                 res.witness_ok += 1
                 wfailed.append(d)
+                res.witness_props.append((p.get('property'), d))
             elif st != 'SUCCESS':
                 res.reason += 'witness %s status %s; ' % (d, st)
         else:
             if st == 'FAILURE' and d.startswith('unwinding assertion'):
                 res.reason += 'unwinding bound too small (%s %s): not a verdict; ' % (p.get('property'), d)
+            elif st == 'FAILURE' and re.match(r'(sprintf model|model limit):', d):
+                # the harness's environment model does not cover what the code now does (e.g. a printf conversion the
+                # contract model has no rule for): that says nothing about the property, so it is not a verdict
+                res.reason += 'harness model does not cover the code (%s): not a verdict; ' % d
             elif st == 'FAILURE':
                 failed.append((p.get('property'), d))
             elif st != 'SUCCESS':
@@ -497,7 +503,29 @@ def run_check(prop, tier, seed, make_jobs, level, meta):
             violations += 1
             log('VIOLATION property=%s replay=%s job=%s assertion="%s" (concrete run of the real translator)' %
                 (prop, outdir, pv['name'], pv['desc'][:300].replace('\n', ' ')))
+        # witness-trace validation: for a few decided queries, take the solver's own witness input (the trace that
+        # reaches the reachability witness at the end of the harness), and run the SAME harness + real code natively on
+        # it (ASan/UBSan where the harness asks for it).  The native run must reach the end without a failed
+        # assertion or assumption: CBMC's reading of the code and the compiled code agree on that path.
+        wt_ok, wt_bad = [], []
+        cand = sorted([r for r in results if r.status == 'ok' and r.job.replay and r.witness_props], key=lambda r: r.wall)
+        for r in cand[:(2 if tier == 'quick' else 6)]:
+            ends = [x for x in r.witness_props if re.search(r'end', x[1])] or r.witness_props
+            wp, wd = ends[-1]
+            outdir = os.path.join(ctx.scratch, 'wtrace_' + re.sub(r'[^A-Za-z0-9_.-]', '_', r.job.name))
+            try:
+                info = do_replay(r.job, r, wp, wd, ctx, outdir)
+            except Exception as e:
+                info = {'note': 'exception %s' % e}
+            good = info.get('native_rc') == 0 and 'REPLAY-ASSUME-FAIL' not in (info.get('native_out') or '') and 'REPLAY-ASSERT-FAIL' not in (info.get('native_out') or '')
+            (wt_ok if good else wt_bad).append({'job': r.job.name, 'witness': wd, 'native_rc': info.get('native_rc'), 'note': (info.get('note') or info.get('native_out') or '')[-200:]})
+            r.replays.append({'confirmed': bool(good), 'witness': True})
         aux = dict(aux or {})
+        aux['witness_traces_replayed_natively_ok'] = len(wt_ok)
+        if wt_bad:
+            aux['witness_traces_replay_mismatch'] = wt_bad
+            for b in wt_bad:
+                log('NOTE witness trace of job=%s did not replay natively to the end (rc=%s %s)' % (b['job'], b['native_rc'], b['note'].replace('\n', ' ')[-160:]))
         aux['translator_failures'] = len(pre)
         seen = set()
         for (f, jn, d) in known_hit:
